@@ -47,6 +47,7 @@ var targets = []target{
 	{"block/manager.go", "Manager", "retrieveBatch"},
 	{"block/manager.go", "Manager", "publishBlockInternal"},
 	{"block/sync.go", "Manager", "updateState"},
+	{"block/sync.go", "Manager", "trySyncNextBlock"},
 	{"block/manager.go", "Manager", "isUsingExpectedSingleSequencer"},
 	{"block/manager.go", "Manager", "isValidSignedData"},
 	{"block/manager.go", "Manager", "exponentialBackoff"},
@@ -293,6 +294,37 @@ func (t *tr) block(b *ast.BlockStmt) string {
 		out = append(out, t.stmt(s))
 	}
 	return list(out)
+}
+
+// body translates a function body.  A body that is exactly one endless loop `for { ... }` without break / continue /
+// goto / labels and without variables carried from one iteration to the next (nothing is declared outside the
+// loop) is translated as ONE ITERATION: the loop body followed by `return $continue` — an iteration either returns
+// (the function's result) or reaches the end of the body, which means "the same body runs again, from the same
+// local state"; lemmas are then stated per iteration.
+func (t *tr) body(b *ast.BlockStmt) string {
+	if b != nil && len(b.List) == 1 {
+		if fs, ok := b.List[0].(*ast.ForStmt); ok && fs.Init == nil && fs.Cond == nil && fs.Post == nil {
+			plain := true
+			ast.Inspect(fs.Body, func(n ast.Node) bool {
+				switch n.(type) {
+				case *ast.BranchStmt, *ast.LabeledStmt:
+					plain = false
+				case *ast.FuncLit:
+					return false
+				}
+				return true
+			})
+			if plain {
+				var out []string
+				for _, s := range fs.Body.List {
+					out = append(out, t.stmt(s))
+				}
+				out = append(out, "(SReturn [(EVar "+q("$continue")+")])")
+				return list(out)
+			}
+		}
+	}
+	return t.block(b)
 }
 
 func lhsNames(es []ast.Expr) ([]string, bool) {
@@ -653,7 +685,7 @@ func main() {
 			}
 		}
 		fmt.Fprintf(&b, "(* %s: %s *)\nDefinition %s : gfun := {| f_recv := %s; f_params := %s; f_body :=\n  %s |}.\n\n",
-			tg.file, key, ident, recv, list(params), t.block(fd.Body))
+			tg.file, key, ident, recv, list(params), t.body(fd.Body))
 		table = append(table, "("+q(key)+", "+ident+")")
 	}
 	fmt.Fprintf(&b, "Definition gen_funs : list (string * gfun) :=\n  [%s].\n", strings.Join(table, ";\n   "))
